@@ -298,6 +298,25 @@ def r09_4(ctx: Ctx) -> None:
             if comp is not None:
                 pred = (cd, pol, expr, comp)
         if pred is None:
+            # the whole decision may live in a predicate helper of either polarity (a method or a function nested in extract, `if not has_work(folder):
+            # continue`): its body as one expression, judged in the model (member list None? / skipping allowed? / some member selected?)
+            for cd, pol in facts:
+                e = shared.pred_helper_expr(ctx, f, cd)
+                if e is None or "target_filepath" not in norm(e):
+                    continue
+                n_found += 1
+                try:
+                    table = {(fn_, sk, se): (bool(shared.folder_pred_eval(e, fn_, sk, se)) == pol) for fn_ in (True, False) for sk in (True, False) for se in (True, False)}
+                    want = {(fn_, sk, se): (True if fn_ else (sk and not se)) for fn_ in (True, False) for sk in (True, False) for se in (True, False)}
+                    ok_sem, why = table == want, f"skip decisions {table}"
+                except shared.Touched as t_:
+                    ok_sem, why = False, f"the member list is iterated although it is None: {t_}"
+                except shared.Unknown as u_:
+                    ok_sem, why = False, f"not understood: {u_}"
+                ctx.check(ok_sem, "R09.4", f, cont, "folder skipped iff it has no members, or skipping is allowed and none of its members is selected (predicate helper)",
+                          f"the folder-skip helper behind `{norm(cd)[:60]}` is not 'no member list, or (skip_notarget and no member selected)': {why}")
+                idk_ = any(isinstance(x, ast.Attribute) and x.attr == "id" for x in ast.walk(e))
+                ctx.check(idk_, "R09.4", f, cont, "folder skip looks members up by id", "the folder-skip predicate does not look members up by member.id")
             continue
         n_found += 1
         cd, pol, expr, comp = pred
